@@ -75,6 +75,8 @@ type Interp struct {
 	sched     *scheduler
 	allocBound int // upper bound for MakeSlice obligations (-1: off)
 	obs        []obsRec
+	enumHits   int
+	feasHint   func(i int) (bool, bool)
 }
 
 func (in *Interp) unsupported(msg string) *Inconclusive {
@@ -147,8 +149,25 @@ func (in *Interp) decide(n int, cond func(i int) *Term) int {
 		// last alternative with none feasible so far must be feasible (pc is satisfiable and the
 		// alternatives are exhaustive) – callers guarantee exhaustiveness.
 		var r Result
-		if i == n-1 && first < 0 {
+		if in.feasHint != nil {
+			if sat, known := in.feasHint(i); known {
+				if !sat {
+					continue
+				}
+				r = Sat
+			}
+		}
+		if in.feasHint != nil && r == Sat {
+			// decided by the hint
+		} else if i == n-1 && first < 0 {
 			r = Sat
+		} else if sat, known := in.enumDecide([]*Term{c}); known {
+			in.enumHits++
+			if sat {
+				r = Sat
+			} else {
+				r = Unsat
+			}
 		} else {
 			r = in.sol.Check(c)
 		}
@@ -245,9 +264,16 @@ func (in *Interp) concretize(v BV, lo, hi int) int {
 	if n <= 0 {
 		panic(&pathEnd{"infeasible"})
 	}
+	if !in.replaying() {
+		if vals, known := in.enumValues(v.T); known {
+			in.enumHits++
+			in.feasHint = func(i int) (bool, bool) { return vals[uint64(lo+i)], true }
+		}
+	}
 	ch := in.decide(n, func(i int) *Term {
 		return in.tc.Eq(v.T, in.tc.BVConst(v.W, uint64(lo+i)))
 	})
+	in.feasHint = nil
 	return lo + ch
 }
 
@@ -530,8 +556,7 @@ var initAllow = map[string]bool{
 
 // noInitRun lists packages whose globals are usable zero-valued without running init.
 var noInitRun = map[string]bool{
-	"math/big": true, "sync": true, "sync/atomic": true, "fmt": true, "unicode": true, "strconv": true, "io": true,
-	"internal/bytealg": true, "math": true, "encoding/binary": true, "sort": true,
+	"math/big": true, "sync": true, "sync/atomic": true, "fmt": true, "internal/bytealg": true,
 }
 
 func isRepoPkg(path string) bool {
